@@ -89,22 +89,41 @@ def load_registry() -> dict:
         return json.load(f)
 
 
-def scan_forbidden() -> list[str]:
-    """grep the Lean sources for forbidden constructs outside comments."""
-    hits = []
-    for root, _, files in os.walk(LEAN_DIR):
-        if ".lake" in root:
+def import_closure(modules: list[str]) -> list[str]:
+    """files of this project transitively imported by `modules`"""
+    seen, todo = set(), list(modules)
+    while todo:
+        m = todo.pop()
+        if m in seen or not (m.startswith("EoVerif") or m.startswith("Driver")):
             continue
-        for fn in files:
-            if not fn.endswith(".lean"):
+        path = os.path.join(LEAN_DIR, *m.split(".")) + ".lean"
+        if not os.path.exists(path):
+            continue
+        seen.add(m)
+        for line in open(path, encoding="utf-8"):
+            mm = re.match(r"\s*import\s+([\w.]+)", line)
+            if mm:
+                todo.append(mm.group(1))
+    return sorted(os.path.join(LEAN_DIR, *m.split(".")) + ".lean" for m in seen)
+
+
+def scan_forbidden(modules: list[str] | None = None) -> list[str]:
+    """grep the Lean sources (the import closure of `modules`, or every file) for forbidden
+    constructs outside comments."""
+    hits = []
+    if modules is not None:
+        paths = import_closure(modules)
+    else:
+        paths = []
+        for root, _, files in os.walk(LEAN_DIR):
+            if ".lake" in root:
                 continue
-            path = os.path.join(root, fn)
-            text = open(path, encoding="utf-8").read()
-            # strip block comments (non-nested is enough for our sources, nested handled loosely)
-            text = strip_lean_comments(text)
-            for i, line in enumerate(text.split("\n"), 1):
-                if FORBIDDEN.search(line):
-                    hits.append(f"{os.path.relpath(path, LEAN_DIR)}:{i}: {line.strip()[:120]}")
+            paths += [os.path.join(root, fn) for fn in files if fn.endswith(".lean")]
+    for path in paths:
+        text = strip_lean_comments(open(path, encoding="utf-8").read())
+        for i, line in enumerate(text.split("\n"), 1):
+            if FORBIDDEN.search(line):
+                hits.append(f"{os.path.relpath(path, LEAN_DIR)}:{i}: {line.strip()[:120]}")
     return hits
 
 
@@ -379,7 +398,7 @@ class Ctx:
             self.notes.append("lake build failed")
             self.build_log = out
             return False
-        forb = scan_forbidden()
+        forb = scan_forbidden(reg["modules"])
         aud = audit_axioms(self.prop)
         self.axioms = aud["axioms"]
         bad = {n: a for n, a in aud["axioms"].items() if not set(a) <= ALLOWED_AXIOMS}
